@@ -153,12 +153,12 @@ class AtomicIntegralBase<T, true> : public AtomicFloatingBase<T, true> {
 
   T fetch_and(T arg, std::memory_order) noexcept {
     auto val = _value;
-    _value += arg;
+    _value &= arg;
     return val;
   }
   T fetch_and(T arg, std::memory_order) volatile noexcept {
     auto val = _value;
-    _value += arg;
+    _value &= arg;
     return val;
   }
 
@@ -185,31 +185,31 @@ class AtomicIntegralBase<T, true> : public AtomicFloatingBase<T, true> {
   }
 
   T operator++() noexcept {
-    return _value++;
+    return ++_value;
   }
   T operator++() volatile noexcept {
-    return _value++;
+    return ++_value;
   }
 
   T operator++(int) noexcept {
-    return ++_value;
+    return _value++;
   }
   T operator++(int) volatile noexcept {
-    return ++_value;
+    return _value++;
   }
 
   T operator--() noexcept {
-    return _value--;
+    return --_value;
   }
   T operator--() volatile noexcept {
-    return _value--;
+    return --_value;
   }
 
   T operator--(int) noexcept {
-    return --_value;
+    return _value--;
   }
   T operator--(int) volatile noexcept {
-    return --_value;
+    return _value--;
   }
 
   T operator&=(T arg) noexcept {
@@ -275,31 +275,31 @@ class Atomic<U*> : public AtomicBase<U*> {
   }
 
   U* operator++() noexcept {
-    return _value++;
+    return ++_value;
   }
   U* operator++() volatile noexcept {
-    return _value++;
+    return ++_value;
   }
 
   U* operator++(int) noexcept {
-    return ++_value;
+    return _value++;
   }
   U* operator++(int) volatile noexcept {
-    return ++_value;
+    return _value++;
   }
 
   U* operator--() noexcept {
-    return _value--;
+    return --_value;
   }
   U* operator--() volatile noexcept {
-    return _value--;
+    return --_value;
   }
 
   U* operator--(int) noexcept {
-    return --_value;
+    return _value--;
   }
   U* operator--(int) volatile noexcept {
-    return --_value;
+    return _value--;
   }
 
   U* operator+=(std::ptrdiff_t arg) noexcept {
